@@ -24,6 +24,9 @@ type modSet struct {
 	iters  map[ssa.Value]bool
 	ghosts map[string]bool
 	why    []string
+	fresh  map[string]string       // components changed only at freshly allocated references
+	topFn  *ssa.Function           // the function whose code is scanned at depth 0
+	subst  map[ssa.Value]ssa.Value // free variable of a nested closure -> value bound to it
 }
 
 func newModSet() *modSet {
@@ -32,10 +35,20 @@ func newModSet() *modSet {
 
 func (e *Engine) loopMods(fn *ssa.Function, li *loopInfo) *modSet {
 	ms := newModSet()
+	ms.topFn = fn
 	for b := range li.body {
 		e.scanBlockMods(b, li, ms, 0, map[*ssa.Function]bool{fn: true})
 	}
 	return ms
+}
+
+// addFresh: the component changes only at references allocated by the code
+// being summarised.
+func (ms *modSet) addFresh(c, s string) {
+	if ms.fresh == nil {
+		ms.fresh = map[string]string{}
+	}
+	ms.fresh[c] = s
 }
 
 func (e *Engine) addCompWhole(ms *modSet, c, s string) {
@@ -111,14 +124,24 @@ func (e *Engine) scanStoreTarget(addr ssa.Value, li *loopInfo, ms *modSet, inCal
 			ms.cells[b] = true
 			return
 		}
+		// an object allocated by the summarised code itself: fresh reference
+		inside := inCallee || li == nil || li.body[b.Block()]
 		if _, isStruct := et.Underlying().(*types.Struct); isStruct && len(chain) > 1 {
 			fa := chain[len(chain)-2].(*ssa.FieldAddr)
 			si := e.structInfoOf(et)
 			c, s := e.fieldComp(si, fa.Field)
+			if inside {
+				ms.addFresh(c, s)
+				return
+			}
 			e.addField(ms, c, s, b, li, inCallee)
 			return
 		}
 		c, s := e.ptrComp(et)
+		if inside {
+			ms.addFresh(c, s)
+			return
+		}
 		e.addField(ms, c, s, b, li, inCallee)
 		return
 	case *ssa.Global:
@@ -173,7 +196,32 @@ func (e *Engine) addField(ms *modSet, c, s string, base ssa.Value, li *loopInfo,
 	if _, whole := ms.comps[c]; whole {
 		return
 	}
-	if inCallee || !definedOutside(base, li) {
+	// free variables of closures created and called inside the scanned code
+	// stand for the values bound to them
+	for i := 0; i < 8; i++ {
+		nb, ok := ms.subst[base]
+		if !ok {
+			break
+		}
+		base = nb
+	}
+	if inCallee {
+		// inside an inlined callee only values of the scanned top-level
+		// function (reached through closure bindings) are stable bases
+		ok := false
+		switch x := base.(type) {
+		case *ssa.Parameter:
+			ok = x.Parent() == ms.topFn
+		case *ssa.FreeVar:
+			ok = x.Parent() == ms.topFn
+		case ssa.Instruction:
+			ok = x.Parent() == ms.topFn && definedOutside(base, li)
+		}
+		if !ok {
+			e.addCompWhole(ms, c, s)
+			return
+		}
+	} else if !definedOutside(base, li) {
 		e.addCompWhole(ms, c, s)
 		return
 	}
@@ -207,24 +255,26 @@ func (e *Engine) scanBlockMods(b *ssa.BasicBlock, li *loopInfo, ms *modSet, dept
 		case *ssa.MakeSlice:
 			et := x.Type().Underlying().(*types.Slice).Elem()
 			c, s := e.elemComp(et)
-			e.addCompWhole(ms, c, s)
+			ms.addFresh(c, s)
 			ms.comps["$alloc"] = "(Array Int Bool)"
 		case *ssa.Alloc:
+			// a fresh object changes its components only at a reference that
+			// was not allocated before (addFresh)
 			et := x.Type().(*types.Pointer).Elem()
 			if at, ok := et.Underlying().(*types.Array); ok {
 				c, s := e.elemComp(at.Elem())
-				e.addCompWhole(ms, c, s)
+				ms.addFresh(c, s)
 				ms.comps["$alloc"] = "(Array Int Bool)"
 			} else if x.Heap {
 				ms.comps["$alloc"] = "(Array Int Bool)"
 				if si := e.structInfoOf(et); si != nil {
 					for i := range si.fields {
 						c, s := e.fieldComp(si, i)
-						e.addCompWhole(ms, c, s)
+						ms.addFresh(c, s)
 					}
 				} else {
 					c, s := e.ptrComp(et)
-					e.addCompWhole(ms, c, s)
+					ms.addFresh(c, s)
 				}
 			} else if depth == 0 {
 				ms.cells[x] = true
@@ -232,7 +282,7 @@ func (e *Engine) scanBlockMods(b *ssa.BasicBlock, li *loopInfo, ms *modSet, dept
 		case *ssa.Convert:
 			if sl, ok := x.Type().Underlying().(*types.Slice); ok {
 				c, s := e.elemComp(sl.Elem())
-				e.addCompWhole(ms, c, s)
+				ms.addFresh(c, s)
 				ms.comps["$alloc"] = "(Array Int Bool)"
 			}
 		case *ssa.Go:
@@ -284,6 +334,14 @@ func (e *Engine) scanCallMods(call *ssa.CallCommon, li *loopInfo, ms *modSet, de
 		fn = v
 	case *ssa.MakeClosure:
 		fn = v.Fn.(*ssa.Function)
+		if ms.subst == nil {
+			ms.subst = map[ssa.Value]ssa.Value{}
+		}
+		for i, fv := range fn.FreeVars {
+			if i < len(v.Bindings) {
+				ms.subst[fv] = v.Bindings[i]
+			}
+		}
 	}
 	if fn == nil {
 		ms.all = true
@@ -485,6 +543,21 @@ func (e *Engine) applyModSet(st *State, ms *modSet, resolve func(ssa.Value) *Val
 		// loop are havoc'd explicitly below)
 		e.havocAllKeepPrivate(st)
 		st.taint["loop havoc all: "+strings.Join(ms.why, "; ")] = true
+	}
+	// components touched only by fresh allocations: unchanged at every
+	// reference that was allocated before
+	for c, s := range ms.fresh {
+		if _, whole := ms.comps[c]; whole || !strings.HasPrefix(s, "(Array Int ") {
+			continue
+		}
+		old := e.heapGet(st, c, s)
+		al := e.allocGet(st)
+		n := e.freshName("loop$" + strings.Trim(c, "|"))
+		st.declare(n, s)
+		qi := quoteSym("q$r")
+		st.assume(fmt.Sprintf("(forall ((%s Int)) (! (=> (select %s %s) (= (select %s %s) (select %s %s))) :pattern ((select %s %s))))", qi, al, qi, n, qi, old, qi, n, qi))
+		st.heap[c] = n
+		st.ghost["$sort:"+c] = s
 	}
 	for c, s := range ms.comps {
 		if strings.HasPrefix(strings.Trim(c, "|"), "P$") {
